@@ -40,7 +40,7 @@ for k in ("iii", "iif", "ifi", "iff", "fii", "fif", "ffi", "fff"):
     ob(f"O-C08-trans-{k}", ["C08"], J, f"c08_num_trans_{k}", "transitivity of <= and of == over all number triples of kinds " + k + " (i = machine integer, f = float) inside the property's domain", [NUM + "Num::cmp", NUM + "Num::eq"])
 for k, kinds in (("ii", "Int,Int"), ("if", "Int,Float"), ("ff", "Float,Float")):
     ob(f"O-C08-hash-{k}", ["C08"], J, f"c08_num_hash_{k}", f"equal numbers are interchangeable keys: for all ({kinds}) pairs, a == b implies Num::hash feeds the hasher the identical byte stream (independent of the hash function); every stream starts with a tag < 2 as Val::hash assumes", [NUM + "Num::hash", NUM + "Num::eq"],
-       inlang={"filter": "{($a):1,\"x\":2}|has($b)", "doc": "a, b = the two numbers of the counterexample; must print true"})
+       inlang={"inputs": [{"i": "isize", "f": "f64"}[k[0]], {"i": "isize", "f": "f64"}[k[1]]], "filter": "{($a):1,\"x\":2}|has($b)", "expect": "true", "doc": "a, b = the two numbers of the counterexample; must print true"})
 
 # ------------------------------------------------------------------------------------ C09
 ob("O-C09-add", ["C09", "C05"], J, "c09_int_add", "Int + Int: the exact sum (i128) as Num::Int when it fits, otherwise the big-integer fall-back is entered with the same operands in the same order; never wraps, never panics", [NUM + "Num::add"], stubs=["int_or_big"])
@@ -59,31 +59,36 @@ ob("O-C09-rem-kind", ["C09", "C05"], J, "c09_rem_kind", "% with a float on eithe
 ob("O-C09-neg-float", ["C09"], J, "c09_neg_float", "-Float is the IEEE negation", [NUM + "Num::neg"])
 ob("O-C09-observers", ["C09"], J, "c09_observers", "is_int / as_isize / as_f64 on Num and on Val give the value-level answer for machine integers and floats; null and booleans are not numbers (Val's conformance to the jaq_std::ValT observer contract)", [NUM + "Num::is_int", NUM + "Num::as_isize", NUM + "Num::as_f64", LIB + "Val::is_int", LIB + "Val::as_isize", LIB + "Val::as_f64"])
 ob("O-C05-length", ["C05"], J, "c05_num_length", "Num::length (absolute value) is exact for every machine integer (isize::MIN goes to the big-integer representation) and for floats; never panics", [NUM + "Num::length"], stubs=["int_or_big"],
-   inlang={"filter": "$a|length", "doc": "a = the integer of the counterexample"})
+   inlang={"inputs": ["isize"], "filter": "$a|length", "expect": "no_panic", "doc": "a = the integer of the counterexample"})
+
+# point obligations: the big-integer arms at concrete boundary values
+ob("O-C08-big", ["C08"], J, "c08_big_points", "points: a big integer against +/-infinity and a small float in both argument orders; 5 as Int / BigInt / Float and 0 as Int / BigInt mutually equal, ordered Equal and hashing alike; big integers beyond the machine range ordered among themselves and against isize::MAX / MIN", [NUM + "Num::cmp", NUM + "Num::eq", NUM + "Num::hash"], label="point", kind="point", composes_dependency=True)
+ob("O-C09-big-obs", ["C09", "C10"], J, "c09_big_observers", "points: is_int / as_isize / as_f64 / as_pos_usize / length on big integers 5, -1, 0 (zero is not negative), 2^63, -2^63-1, 2^70 agree with the machine-integer answers", [NUM + "Num::as_isize", NUM + "Num::as_pos_usize", NUM + "Num::as_f64", NUM + "Num::length"], label="point", kind="point", composes_dependency=True)
+ob("O-C09-big-arith", ["C09"], J, "c09_big_arith", "points: MAX+1, MIN-1, MIN+(-1), -MIN, MAX-(-1) take the exact big-integer value through the real fall-back; Int-BigInt, BigInt-Int, Int+BigInt, BigInt+Int, BigInt-BigInt, -BigInt with the operands in the order written (num-bigint executed on concrete operands)", [NUM + "Num::add", NUM + "Num::sub", NUM + "Num::neg", NUM + "int_or_big"], label="point", kind="point", composes_dependency=True, stubs=["_addcarry_u64", "_subborrow_u64"])
 
 # ------------------------------------------------------------------------------------ jaq-std (trait-contract instances, AnyVal)
 STD = "jaq-std/src/lib.rs::"
 TIME = "jaq-std/src/time.rs::"
 FMT = ["fmt::format"]
 ob("O-C13-implode", ["C13", "C05", "C09"], S, "c13_implode_one", "implode on one code, for every value of the abstract value type: codes -255..0 give that byte, Unicode scalar values their UTF-8 encoding (Unicode table 3-6), everything else (non-integers, surrogates, > 0x10FFFF, < -255, isize::MIN) is rejected with an error; never wraps, never panics", [STD + "implode", STD + "ValTx::try_as_isize"], kind="trait-contract", stubs=FMT,
-   inlang={"filter": "[$a]|implode", "doc": "a = the integer code of the counterexample"})
-ob("O-C13-implode2", ["C13", "C05"], S, "c13_implode_two", "implode on two codes: the output is the concatenation of the per-code outputs; the first rejected code ends it with an error; empty input gives the empty string", [STD + "implode"], kind="trait-contract", label="bounded", bound="arrays of <= 2 codes, each code unconstrained", stubs=FMT)
+   inlang={"inputs": ["AnyVal"], "filter": "[$a]|implode", "expect": "no_panic", "doc": "a = the integer code of the counterexample"})
+ob("O-C13-implode2", ["C13", "C05"], S, "c13_implode_two", "implode on two codes: the output is the concatenation of the per-code outputs; the first rejected code ends it with an error; empty input gives the empty string", [STD + "implode"], kind="trait-contract", label="bounded", bound="arrays of <= 2 codes, each code unconstrained", stubs=FMT, tier="thorough")
 ob("O-C13-explode1", ["C13", "C05"], S, "c13_explode_implode_1", "explode then implode is the identity on every byte string of length <= 1 (valid or invalid UTF-8); every emitted code is a scalar value or a negated byte", [STD + "explode", STD + "Explode::next", STD + "implode"], kind="trait-contract", label="bounded", bound="all byte strings of length <= 1 (exhaustive)", stubs=FMT)
-ob("O-C13-explode2", ["C13", "C05"], S, "c13_explode_implode_2", "explode then implode is the identity on every byte string of length <= 2", [STD + "explode", STD + "Explode::next", STD + "implode"], kind="trait-contract", label="bounded", bound="all byte strings of length <= 2 (exhaustive)", stubs=FMT)
+ob("O-C13-explode2", ["C13", "C05"], S, "c13_explode_implode_2", "explode then implode is the identity on every byte string of length <= 2", [STD + "explode", STD + "Explode::next", STD + "implode"], kind="trait-contract", label="bounded", bound="all byte strings of length <= 2 (exhaustive)", stubs=FMT, tier="thorough")
 ob("O-C13-explode3", ["C13"], S, "c13_explode_implode_3", "explode then implode is the identity on every byte string of length <= 3", [STD + "explode", STD + "Explode::next", STD + "implode"], kind="trait-contract", label="bounded", bound="all byte strings of length <= 3 (exhaustive)", stubs=FMT, tier="thorough", timeout=1800)
 ob("O-C09-round", ["C09", "C12", "C05"], S, "c09_round", "ValTx::round (floor/round/ceil) with the rounding function abstracted to any float result y: integers unchanged; finite y in [-2^63, 2^63) becomes exactly that integer; finite y outside goes through decimal text (exact); non-finite y stays a float; non-numbers are an error", [STD + "ValTx::round"], kind="trait-contract", stubs=FMT,
-   inlang={"filter": "$a|round", "doc": "a = the float of the counterexample"})
+   inlang={"inputs": ["AnyVal", "f64"], "filter": "$b|round", "expect": "int_of_b", "doc": "b = the rounding result y of the counterexample (an integral float is its own round); must print exactly that integer"})
 ob("O-C05-i32", ["C05"], S, "c05_try_as_i32", "try_as_i32 (exit codes, ldexp-style arguments): the exact integer or an error, never a truncation", [STD + "ValTx::try_as_i32"], kind="trait-contract", stubs=FMT)
 ob("O-C20-epoch", ["C20", "C05"], S, "c20_epoch_to_timestamp", "epoch_to_timestamp: jiff receives exactly i * 10^6 microseconds for every machine integer i (computed in i128) or an error is returned - never a wrapped product; floats pass (f * 10^6) as i64, and a non-finite input never becomes an instant jiff accepts (NaN is an error, never the epoch); non-numbers are errors", [TIME + "epoch_to_timestamp"], kind="trait-contract", stubs=["from_microsecond", "fmt::format"],
-   inlang={"filter": "$a|gmtime", "doc": "a = the number of the counterexample"})
+   inlang={"inputs": ["AnyVal"], "filter": "$a|gmtime", "expect": "error_if_nonfinite", "doc": "a = the number of the counterexample; must not panic, and must be an error for NaN / infinities / non-numbers"})
 ob("O-C20-iso", ["C20", "C05"], S, "c20_to_iso8601", "to_iso8601: machine integers are passed to jiff unchanged as whole seconds; other numbers as for epoch_to_timestamp", [TIME + "to_iso8601"], kind="trait-contract", stubs=["from_microsecond", "from_second", "fmt::format"],
-   inlang={"filter": "$a|todate", "doc": "a = the number of the counterexample"})
+   inlang={"inputs": ["AnyVal"], "filter": "$a|todate", "expect": "error_if_nonfinite", "doc": "a = the number of the counterexample"})
 ob("O-C20-back", ["C20"], S, "c20_timestamp_to_epoch", "timestamp_to_epoch: whole seconds come back as the exact machine integer, fractional instants as microseconds / 10^6", [TIME + "timestamp_to_epoch"], kind="trait-contract", stubs=["as_second", "as_microsecond"], solver="cvc5")
 ob("O-C20-array", ["C20", "C05"], S, "c20_array_fields", "array_to_datetime: DateTime::new receives exactly (year, month + 1, day, hour, minute) as mathematical integers whenever it is called; a field that is not a machine integer or does not fit its range gives None - never a wrapped or saturated value, never a panic", [TIME + "array_to_datetime"], kind="trait-contract", stubs=["DateTime::new"],
-   inlang={"filter": "[$a,$b,$c,$d,$e,0]|mktime", "doc": "a..e = year, month, day, hour, minute of the counterexample"})
+   inlang={"inputs": ["[AnyVal; 6]"], "spread": True, "filter": "[$a,$b,$c,$d,$e,0]|mktime", "expect": "no_panic", "doc": "a..e = year, month, day, hour, minute of the counterexample"})
 ob("O-C20-array-short", ["C20", "C05"], S, "c20_array_short", "array_to_datetime: arrays with fewer than 6 elements are rejected without calling jiff", [TIME + "array_to_datetime"], kind="trait-contract", label="bounded", bound="arrays of length 0..5")
 ob("O-C20-seconds", ["C20", "C05"], S, "c20_array_seconds", "array_to_datetime, seconds field: a second value inside the i8 range is passed as its floor; NaN and out-of-range values are never turned into a valid second 0..=59; a non-number gives None", [TIME + "array_to_datetime"], kind="trait-contract", stubs=["DateTime::new"],
-   inlang={"filter": "[2000,0,1,0,0,$a]|mktime", "doc": "a = the seconds value of the counterexample"})
+   inlang={"inputs": ["AnyVal"], "filter": "[2000,0,1,0,0,$a]|mktime", "expect": "error_if_nonfinite", "doc": "a = the seconds value of the counterexample"})
 ob("O-C11-once", ["C11"], S, "c11_once_or_empty", "once_or_empty: Ok(Some x) -> [Ok x], Ok(None) -> [], Err e -> [Err e]", [STD + "once_or_empty"], kind="contract")
 
 # ------------------------------------------------------------------------------------ jaq-core
@@ -100,7 +105,7 @@ ob("O-C03-once", ["C03"], C, "c03_collect_if_once", "collect_if_once: the genera
 ob("O-C03-lazy", ["C03"], C, "c03_lazy", "filter::lazy(f): f does not run before the first next(), and runs exactly once", [CORE + "filter.rs::lazy"], label="bounded", bound="streams of length <= 3")
 ob("O-C04-stack-break", ["C04", "C03"], C, "c04_stack_break", "Stack::next (Break callback): yields the next element of the topmost non-empty iterator, pops only iterators above it, and does not keep an iterator whose size_hint says exhausted", [CORE + "stack.rs::Stack::next"], label="bounded", bound="two iterators of length <= 2")
 ob("O-C04-stack-tail", ["C04"], C, "c04_stack_tailcall_height", "Stack::next on a chain of tail calls (every stream yields exactly one Continue item): each exhausted caller is dropped before its callee is pushed, so the height stays <= 1", [CORE + "stack.rs::Stack::next"], label="bounded", bound="a chain of 3 tail calls")
-ob("O-C04-stack-growth", ["C04"], C, "c04_stack_growth", "Stack::next growth bound: height after <= height before + number of Continue answers; a one-element stream is gone once it has yielded", [CORE + "stack.rs::Stack::next"], label="bounded", bound="bottom stream of length <= 2, up to 2 Continue answers chosen symbolically")
+ob("O-C04-stack-growth", ["C04"], C, "c04_stack_growth", "Stack::next growth bound: height after <= height before + number of Continue answers; a one-element stream is gone once it has yielded", [CORE + "stack.rs::Stack::next"], label="bounded", bound="bottom stream of length 0..=2 x the first two callback answers (enumerated concretely)")
 ob("O-C02-opt", ["C02"], C, "c02_opt_fail", "Opt::fail: Optional -> Ok(x) without running f, Essential -> Err(f(x))", [CORE + "path.rs::Opt::fail"], kind="contract")
 
 OBS.append(dict(id="O-C01-env", properties=["C01"], backend="verus", spec="verus/rc_list.spec.json", kind="verus", label="complete", tier="quick",
